@@ -128,8 +128,8 @@ LeafAct(n, kind, tag) ==
     [] kind = "setqueue" -> El(n, [T |-> "ActionSetqueue", QueueId |-> V(tag, 4)], <<New(n, "NewActionSetQueue", <<V(tag, 4)>>)>>)
     [] kind = "group"    -> El(n, [T |-> "ActionGroup", GroupId |-> V(tag, 4)], <<New(n, "NewActionGroup", <<V(tag, 4)>>)>>)
     [] kind = "decnwttl" -> El(n, [T |-> "ActionDecNwTtl"], <<New(n, "NewActionDecNwTtl", <<>>)>>)
-    [] kind = "pushvlan" -> El(n, [T |-> "ActionPushVlan", EtherType |-> V(tag, 2)], <<New(n, "NewActionPushVlan", <<V(tag, 2)>>)>>)
-    [] kind = "pushmpls" -> El(n, [T |-> "ActionPushMpls", EtherType |-> V(tag, 2)], <<New(n, "NewActionPushMpls", <<V(tag, 2)>>)>>)
+    [] kind = "pushvlan" -> El(n, [T |-> "ActionPush", Type |-> <<0, 17>>, EtherType |-> V(tag, 2)], <<New(n, "NewActionPushVlan", <<V(tag, 2)>>)>>)
+    [] kind = "pushmpls" -> El(n, [T |-> "ActionPush", Type |-> <<0, 19>>, EtherType |-> V(tag, 2)], <<New(n, "NewActionPushMpls", <<V(tag, 2)>>)>>)
     [] kind = "popvlan"  -> El(n, [T |-> "ActionPopVlan"], <<New(n, "NewActionPopVlan", <<>>)>>)
     [] kind = "popmpls"  -> El(n, [T |-> "ActionPopMpls", EtherType |-> V(tag, 2)], <<New(n, "NewActionPopMpls", <<V(tag, 2)>>)>>)
     [] kind = "setfield" -> LET f == MF(Nm(n, 1), 1 + (tag % NMF), tag, FALSE) IN
@@ -147,11 +147,11 @@ LeafAct(n, kind, tag) ==
                                   SrcField |-> s.tree, DstField |-> d.tree],
                               s.ops \o d.ops \o <<New(n, "NewNXActionRegMove", <<V(tag, 2), V(tag + 1, 2), V(tag + 2, 2), Ref(s.n), Ref(d.n)>>)>>)
     [] kind = "resubmit" -> El(n, [T |-> "NXActionResubmit", InPort |-> V(tag, 2)], <<New(n, "NewNXActionResubmit", <<V(tag, 2)>>)>>)
-    [] kind = "resubtable" -> El(n, [T |-> "NXActionResubmitTable", WithCT |-> FALSE, InPort |-> V(tag, 2), TableID |-> V(tag + 1, 1)],
+    [] kind = "resubtable" -> El(n, [T |-> "NXActionResubmitTable", Subtype |-> <<0, 14>>, InPort |-> V(tag, 2), TableID |-> V(tag + 1, 1)],
                                  <<New(n, "NewNXActionResubmitTableAction", <<V(tag, 2), V(tag + 1, 1)>>)>>)
-    [] kind = "resubct" -> El(n, [T |-> "NXActionResubmitTable", WithCT |-> TRUE, InPort |-> V(tag, 2), TableID |-> V(tag + 1, 1)],
+    [] kind = "resubct" -> El(n, [T |-> "NXActionResubmitTable", Subtype |-> <<0, 44>>, InPort |-> V(tag, 2), TableID |-> V(tag + 1, 1)],
                               <<New(n, "NewNXActionResubmitTableCT", <<V(tag, 2), V(tag + 1, 1)>>)>>)
-    [] kind = "resubctnoport" -> El(n, [T |-> "NXActionResubmitTable", WithCT |-> TRUE, InPort |-> <<255, 248>>, TableID |-> V(tag + 1, 1)],
+    [] kind = "resubctnoport" -> El(n, [T |-> "NXActionResubmitTable", Subtype |-> <<0, 44>>, InPort |-> <<255, 248>>, TableID |-> V(tag + 1, 1)],
                                     <<New(n, "NewNXActionResubmitTableCTNoInPort", <<V(tag + 1, 1)>>)>>)   \* OFPP_IN_PORT as 16 bits
     [] kind = "outputreg" -> LET s == HdrField(Nm(n, 1), "NXM_NX_REG" \o ToString(tag % 16), FALSE) IN
                              El(n, [T |-> "NXActionOutputReg", OfsNbits |-> V(tag, 2), SrcField |-> s.tree, MaxLen |-> V(tag + 1, 2)],
@@ -198,7 +198,7 @@ OrderOf(adds) == IF adds = <<>> THEN <<>>
                       IF last[2] THEN <<last[1]>> \o init ELSE Append(init, last[1])
 InstrActs(n, kind, adds) ==
   LET kids == [i \in DOMAIN adds |-> adds[i][1]] IN
-  El(n, [T |-> (IF kind = "apply" THEN "InstrApplyActions" ELSE "InstrWriteActions"), Actions |-> TreesOf(OrderOf(adds))],
+  El(n, [T |-> "InstrActions", Type |-> (IF kind = "apply" THEN <<0, 4>> ELSE <<0, 3>>), Actions |-> TreesOf(OrderOf(adds))],
      OpsOf(kids) \o <<New(n, IF kind = "apply" THEN "NewInstrApplyActions" ELSE "NewInstrWriteActions", <<>>)>>
        \o [i \in DOMAIN adds |-> Call(n, "AddAction", <<Ref(adds[i][1].n), adds[i][2]>>)])
 Goto(n, tag) == El(n, [T |-> "InstrGotoTable", TableId |-> V(tag, 1)], <<New(n, "NewInstrGotoTable", <<V(tag, 1)>>)>>)
@@ -212,22 +212,22 @@ BucketEl(n, kids, tag) ==
 \* ---------------------------------------------------------------- messages
 Xid(tag) == V(tag + 200, 4)
 FlowModEl(n, cmd, fields, instrs, tag) ==
-  LET t == [T |-> "FlowMod", Xid |-> Xid(tag), Cookie |-> V(tag, 8), CookieMask |-> V(tag + 1, 8), TableId |-> V(tag + 2, 1), Command |-> <<cmd>>,
+  LET t == [T |-> "FlowMod", Header |-> [Xid |-> Xid(tag)], Cookie |-> V(tag, 8), CookieMask |-> V(tag + 1, 8), TableId |-> V(tag + 2, 1), Command |-> <<cmd>>,
             IdleTimeout |-> V(tag + 3, 2), HardTimeout |-> V(tag + 4, 2), Priority |-> V(tag + 5, 2), BufferId |-> V(tag + 6, 4),
             OutPort |-> V(tag + 7, 4), OutGroup |-> V(tag + 8, 4), Flags |-> V(tag + 9, 2), Match |-> Match(fields), Instructions |-> TreesOf(instrs)] IN
-  El(n, t, OpsOf(fields) \o OpsOf(instrs) \o <<New(n, "NewFlowMod", <<>>), Set(n, "Xid", t.Xid), Set(n, "Cookie", t.Cookie),
+  El(n, t, OpsOf(fields) \o OpsOf(instrs) \o <<New(n, "NewFlowMod", <<>>), Set(n, "Xid", t.Header.Xid), Set(n, "Cookie", t.Cookie),
        Set(n, "CookieMask", t.CookieMask), Set(n, "TableId", t.TableId), Set(n, "Command", t.Command), Set(n, "IdleTimeout", t.IdleTimeout),
        Set(n, "HardTimeout", t.HardTimeout), Set(n, "Priority", t.Priority), Set(n, "BufferId", t.BufferId), Set(n, "OutPort", t.OutPort),
        Set(n, "OutGroup", t.OutGroup), Set(n, "Flags", t.Flags)>>
        \o [i \in DOMAIN fields |-> CallP(n, "Match", "AddField", <<Ref(fields[i].n)>>)]
        \o [i \in DOMAIN instrs |-> Call(n, "AddInstruction", <<Ref(instrs[i].n)>>)])
 GroupModEl(n, cmd, gtype, buckets, tag) ==
-  LET t == [T |-> "GroupMod", Xid |-> Xid(tag), Command |-> <<0, cmd>>, Type |-> <<gtype>>, GroupId |-> V(tag, 4), Buckets |-> TreesOf(buckets)] IN
-  El(n, t, OpsOf(buckets) \o <<New(n, "NewGroupMod", <<>>), Set(n, "Xid", t.Xid), Set(n, "Command", t.Command), Set(n, "Type", t.Type),
+  LET t == [T |-> "GroupMod", Header |-> [Xid |-> Xid(tag)], Command |-> <<0, cmd>>, Type |-> <<gtype>>, GroupId |-> V(tag, 4), Buckets |-> TreesOf(buckets)] IN
+  El(n, t, OpsOf(buckets) \o <<New(n, "NewGroupMod", <<>>), Set(n, "Xid", t.Header.Xid), Set(n, "Command", t.Command), Set(n, "Type", t.Type),
        Set(n, "GroupId", t.GroupId)>> \o [i \in DOMAIN buckets |-> Call(n, "AddBucket", <<Ref(buckets[i].n)>>)])
 PacketOutEl(n, acts, datalen, tag) ==
-  LET t == [T |-> "PacketOut", Xid |-> Xid(tag), BufferId |-> V(tag, 4), InPort |-> V(tag + 1, 4), Actions |-> TreesOf(acts), Data |-> V(tag + 2, datalen)] IN
-  El(n, t, OpsOf(acts) \o <<New(n, "NewPacketOut", <<>>), Set(n, "Xid", t.Xid), Set(n, "BufferId", t.BufferId), Set(n, "InPort", t.InPort)>>
+  LET t == [T |-> "PacketOut", Header |-> [Xid |-> Xid(tag)], BufferId |-> V(tag, 4), InPort |-> V(tag + 1, 4), Actions |-> TreesOf(acts), Data |-> V(tag + 2, datalen)] IN
+  El(n, t, OpsOf(acts) \o <<New(n, "NewPacketOut", <<>>), Set(n, "Xid", t.Header.Xid), Set(n, "BufferId", t.BufferId), Set(n, "InPort", t.InPort)>>
        \o [i \in DOMAIN acts |-> Call(n, "AddAction", <<Ref(acts[i].n)>>)] \o <<Call(n, "SetData", <<t.Data>>)>>)
 SimpleEl(n, kind, tag) ==
   CASE kind = "echoreq"  -> El(n, [T |-> "Header", Type |-> <<2>>, Xid |-> Xid(tag)], <<New(n, "NewEchoRequest", <<>>), Set(n, "Xid", Xid(tag))>>)
@@ -236,53 +236,53 @@ SimpleEl(n, kind, tag) ==
     [] kind = "confreq"  -> El(n, [T |-> "Header", Type |-> <<7>>, Xid |-> Xid(tag)], <<New(n, "NewConfigRequest", <<>>), Set(n, "Xid", Xid(tag))>>)
     [] kind = "barrier"  -> El(n, [T |-> "Header", Type |-> <<20>>, Xid |-> Xid(tag)],
                                <<New(n, "NewOfp13Header", <<>>), Set(n, "Type", <<20>>), Set(n, "Xid", Xid(tag))>>)
-    [] kind = "hello"    -> El(n, [T |-> "Hello", Xid |-> Xid(tag), Elements |-> << [T |-> "HelloElemVersionBitmap", Bitmaps |-> << V(tag, 4) >>] >>],
+    [] kind = "hello"    -> El(n, [T |-> "Hello", Header |-> [Xid |-> Xid(tag)], Elements |-> << [T |-> "HelloElemVersionBitmap", Bitmaps |-> << V(tag, 4) >>] >>],
                                <<New(Nm(n, 1), "NewHelloElemVersionBitmap", <<>>), Set(Nm(n, 1), "Bitmaps", << V(tag, 4) >>),
                                  New(n, "NewHello", <<4>>), Set(n, "Xid", Xid(tag)), Set(n, "Elements", <<Ref(Nm(n, 1))>>)>>)
-    [] kind = "setconfig" -> El(n, [T |-> "SetConfig", Xid |-> Xid(tag), Flags |-> V(tag, 2), MissSendLen |-> V(tag + 1, 2)],
+    [] kind = "setconfig" -> El(n, [T |-> "SwitchConfig", Header |-> [Type |-> <<9>>, Xid |-> Xid(tag)], Flags |-> V(tag, 2), MissSendLen |-> V(tag + 1, 2)],
                                 <<New(n, "NewSetConfig", <<>>), Set(n, "Xid", Xid(tag)), Set(n, "Flags", V(tag, 2)), Set(n, "MissSendLen", V(tag + 1, 2))>>)
-    [] kind = "portmod"  -> El(n, [T |-> "PortMod", Xid |-> Xid(tag), PortNo |-> <<0, 0, 0, 7>>, HWAddr |-> V(tag, 6), Config |-> V(tag + 1, 4),
+    [] kind = "portmod"  -> El(n, [T |-> "PortMod", Header |-> [Xid |-> Xid(tag)], PortNo |-> <<0, 0, 0, 7>>, HWAddr |-> V(tag, 6), Config |-> V(tag + 1, 4),
                                    Mask |-> V(tag + 2, 4), Advertise |-> V(tag + 3, 4)],
                                <<New(n, "NewPortMod", <<7>>), Set(n, "Xid", Xid(tag)), Set(n, "HWAddr", V(tag, 6)), Set(n, "Config", V(tag + 1, 4)),
                                  Set(n, "Mask", V(tag + 2, 4)), Set(n, "Advertise", V(tag + 3, 4))>>)
-    [] kind = "setctrlid" -> El(n, [T |-> "VendorHeader", Xid |-> Xid(tag), Vendor |-> NxVendor, ExperimenterType |-> <<0, 0, 0, 20>>,
+    [] kind = "setctrlid" -> El(n, [T |-> "VendorHeader", Header |-> [Xid |-> Xid(tag)], Vendor |-> NxVendor, ExperimenterType |-> <<0, 0, 0, 20>>,
                                     VendorData |-> [T |-> "ControllerID", ID |-> V(tag, 2)]],
                                 <<New(n, "NewSetControllerID", <<V(tag, 2)>>), Set(n, "Header.Xid", Xid(tag))>>)
-    [] kind = "tlvreq"   -> El(n, [T |-> "VendorHeader", Xid |-> Xid(tag), Vendor |-> NxVendor, ExperimenterType |-> <<0, 0, 0, 25>>,
-                                   VendorData |-> [T |-> "none"]],
+    [] kind = "tlvreq"   -> El(n, [T |-> "VendorHeader", Header |-> [Xid |-> Xid(tag)], Vendor |-> NxVendor, ExperimenterType |-> <<0, 0, 0, 25>>,
+                                   VendorData |-> [T |-> "nil"]],
                                <<New(n, "NewTLVTableRequest", <<>>), Set(n, "Header.Xid", Xid(tag))>>)
 TlvMapEl(n, tag) == LET t == [T |-> "TLVTableMap", OptClass |-> V(tag, 2), OptType |-> V(tag + 1, 1), OptLength |-> V(tag + 2, 1), Index |-> V(tag + 3, 2)] IN
   El(n, t, <<NewT(n, "TLVTableMap"), Set(n, "OptClass", t.OptClass), Set(n, "OptType", t.OptType), Set(n, "OptLength", t.OptLength), Set(n, "Index", t.Index)>>)
 TlvModEl(n, k, tag) ==
   LET maps == [i \in 1..k |-> TlvMapEl(Nm(n, i), tag + 10 * i)] IN
-  El(n, [T |-> "VendorHeader", Xid |-> Xid(tag), Vendor |-> NxVendor, ExperimenterType |-> <<0, 0, 0, 24>>,
+  El(n, [T |-> "VendorHeader", Header |-> [Xid |-> Xid(tag)], Vendor |-> NxVendor, ExperimenterType |-> <<0, 0, 0, 24>>,
          VendorData |-> [T |-> "TLVTableMod", Command |-> V(tag, 2), TlvMaps |-> TreesOf(maps)]],
      OpsOf(maps) \o <<New(Nm(n, 0), "NewTLVTableMod", <<V(tag, 2), RefsOf(maps)>>), New(n, "NewTLVTableModMessage", <<Ref(Nm(n, 0))>>),
                      Set(n, "Header.Xid", Xid(tag))>>)
 MpReqEl(n, kind, fields, tag) ==
-  LET body == CASE kind = "desc" -> [T |-> "none"] [] kind = "table" -> [T |-> "none"] [] kind = "portdesc" -> [T |-> "none"]
+  LET body == CASE kind \in {"desc", "table", "portdesc"} -> [T |-> "nil"]
                 [] kind \in {"flow", "aggregate"} ->
                      [T |-> (IF kind = "flow" THEN "FlowStatsRequest" ELSE "AggregateStatsRequest"), TableId |-> V(tag, 1), OutPort |-> V(tag + 1, 4),
                       OutGroup |-> V(tag + 2, 4), Cookie |-> V(tag + 3, 8), CookieMask |-> V(tag + 4, 8), Match |-> Match(fields)]
       mtype == CASE kind = "desc" -> 0 [] kind = "flow" -> 1 [] kind = "aggregate" -> 2 [] kind = "table" -> 3 [] kind = "portdesc" -> 13
       bn == Nm(n, 0)
-      bops == IF body.T = "none" THEN <<>>
+      bops == IF body.T = "nil" THEN <<>>
               ELSE OpsOf(fields) \o <<New(bn, IF kind = "flow" THEN "NewFlowStatsRequest" ELSE "NewAggregateStatsRequest", <<>>),
                      Set(bn, "TableId", body.TableId), Set(bn, "OutPort", body.OutPort), Set(bn, "OutGroup", body.OutGroup),
                      Set(bn, "Cookie", body.Cookie), Set(bn, "CookieMask", body.CookieMask)>>
                    \o [i \in DOMAIN fields |-> CallP(bn, "Match", "AddField", <<Ref(fields[i].n)>>)] IN
-  El(n, [T |-> "MultipartRequest", Xid |-> Xid(tag), Type |-> <<0, mtype>>, Flags |-> <<0, tag % 2>>, Body |-> body],
+  El(n, [T |-> "MultipartRequest", Header |-> [Xid |-> Xid(tag)], Type |-> <<0, mtype>>, Flags |-> <<0, tag % 2>>, Body |-> body],
      bops \o <<NewT(n, "MultipartRequest"), New(Nm(n, 9), "NewOfp13Header", <<>>), Set(n, "Header", Ref(Nm(n, 9))), Set(n, "Header.Type", <<18>>),
                Set(n, "Header.Xid", Xid(tag)), Set(n, "Type", <<0, mtype>>), Set(n, "Flags", <<0, tag % 2>>)>>
-       \o (IF body.T = "none" THEN <<>> ELSE <<Set(n, "Body", Ref(bn))>>))
+       \o (IF body.T = "nil" THEN <<>> ELSE <<Set(n, "Body", Ref(bn))>>))
 BundleCtrlEl(n, tag) ==
   LET t == [T |-> "BundleControl", BundleID |-> V(tag, 4), Type |-> <<0, tag % 6>>, Flags |-> <<0, 1 + (tag % 3)>>] IN
-  El(n, [T |-> "VendorHeader", Xid |-> Xid(tag), Vendor |-> <<79, 78, 70, 0>>, ExperimenterType |-> <<0, 0, 8, 252>>, VendorData |-> t],
+  El(n, [T |-> "VendorHeader", Header |-> [Xid |-> Xid(tag)], Vendor |-> <<79, 78, 70, 0>>, ExperimenterType |-> <<0, 0, 8, 252>>, VendorData |-> t],
      <<NewT(Nm(n, 0), "BundleControl"), Set(Nm(n, 0), "BundleID", t.BundleID), Set(Nm(n, 0), "Type", t.Type), Set(Nm(n, 0), "Flags", t.Flags),
        New(n, "NewBundleControl", <<Ref(Nm(n, 0))>>), Set(n, "Header.Xid", Xid(tag))>>)
 BundleAddEl(n, inner, tag) ==
   LET t == [T |-> "BundleAdd", BundleID |-> V(tag, 4), Flags |-> <<0, 1 + (tag % 3)>>, Message |-> inner.tree, Properties |-> <<>>] IN
-  El(n, [T |-> "VendorHeader", Xid |-> Xid(tag + 50), Vendor |-> <<79, 78, 70, 0>>, ExperimenterType |-> <<0, 0, 8, 253>>, VendorData |-> t],
+  El(n, [T |-> "VendorHeader", Header |-> [Xid |-> Xid(tag + 50)], Vendor |-> <<79, 78, 70, 0>>, ExperimenterType |-> <<0, 0, 8, 253>>, VendorData |-> t],
      inner.ops \o <<NewT(Nm(n, 0), "BundleAdd"), Set(Nm(n, 0), "BundleID", t.BundleID), Set(Nm(n, 0), "Flags", t.Flags),
                     Set(Nm(n, 0), "Message", Ref(inner.n)), New(n, "NewBundleAdd", <<Ref(Nm(n, 0))>>), Set(n, "Header.Xid", Xid(tag + 50))>>)
 =============================================================================
